@@ -111,6 +111,14 @@ func (fc *FnCtx) runAnchors(anchor, when string, pos token.Pos) {
 			fc.oblige("assert", strings.ReplaceAll(full, " ", "_"), goal, pos, "assert "+when+" "+full+": "+a.Src)
 		}
 	}
+	for _, a := range fc.c.Assumes {
+		if a.When == when && (a.Anchor == full || a.Anchor == anchor+"#*") {
+			fc.anchorsHit[a] = true
+			env := fc.anchorEnv()
+			fc.cur.assume(env.evalBool(a.Expr))
+			fc.noteTrusted("ghost attributes of a freshly made channel (" + a.Anchor + "): " + a.Src)
+		}
+	}
 	for _, u := range fc.c.GhostUpd {
 		if u.When == when && (u.Anchor == full || u.Anchor == anchor+"#*") {
 			fc.anchorsHit[u] = true
